@@ -28,6 +28,11 @@ def run(ctx):
     input_bound(ctx, ctx.facts())
     from rules import C19
     C19.core(ctx, ctx.facts())         # "wherever the copies land": the exchange that brings equal tags to one shard
+    from rules import C17
+    C17.items_flushed(ctx, ctx.facts())        # every report parsed from the request body is delivered to the runner (none dropped between chunks)
+    C17.deferred_error_first(ctx, ctx.facts())
+    C17.parse_errors(ctx, ctx.facts())
+    C17.state(ctx, ctx.facts())
     facts = ctx.facts()
     tree = [b for b in facts.tree(ROOT) if b.file.startswith("ipa-core/")]
     if not tree:
